@@ -82,7 +82,14 @@ func init() {
 					rep.Exhaustive = false
 					return rep
 				}
-				<-slow.done // the operation the request started has finished (it always does)
+				select {
+				case <-slow.done: // the operation the request started has finished
+				case <-rtime.After(120 * rtime.Second):
+					// (only reached when the request never got to this server's database at all)
+					rep.Violations = append(rep.Violations, vx.Violation{Clause: "api-answers", Sig: vx.Sig(c.Job, "api-reaches-the-database"), Msg: fmt.Sprintf("%s through the admin session was answered %d, but the database of this server was never asked to do it", opName, resp.StatusCode)})
+					rep.Exhaustive = false
+					return rep
+				}
 				_, gerr := db.GetUserInfo(target)
 				exists := gerr == nil
 				success := resp.StatusCode/100 == 2
